@@ -309,9 +309,47 @@ impl CompactionWorker {
                 compaction_range = manual_compaction.clone_key_range();
             }
 
+            #[cfg(feature = "verif")]
+            let verif_levels = crate::verif::dump_levels(&db_fields_guard.version_set);
+            #[cfg(feature = "verif")]
+            let verif_range = compaction_range.clone();
             maybe_compaction_manifest = db_fields_guard
                 .version_set
                 .compact_range(compaction_level, compaction_range);
+            #[cfg(feature = "verif")]
+            crate::verif::event(
+                db_state.options.db_path(),
+                crate::verif::Event::ManualRound {
+                    level: compaction_level,
+                    begin: verif_range.start.as_ref().map(crate::verif::ikey_tuple),
+                    end: verif_range.end.as_ref().map(crate::verif::ikey_tuple),
+                    levels: verif_levels,
+                    max_file_size: db_state.options.max_file_size(),
+                    selected: maybe_compaction_manifest.as_ref().map(|manifest| {
+                        (
+                            manifest
+                                .get_compaction_level_files()
+                                .iter()
+                                .map(|file| file.file_number())
+                                .collect(),
+                            manifest
+                                .get_parent_level_files()
+                                .iter()
+                                .map(|file| file.file_number())
+                                .collect(),
+                        )
+                    }),
+                    next_begin: maybe_compaction_manifest.as_ref().map(|manifest| {
+                        crate::verif::ikey_tuple(
+                            manifest
+                                .get_compaction_level_files()
+                                .last()
+                                .unwrap()
+                                .largest_key(),
+                        )
+                    }),
+                },
+            );
             let mut manual_compaction = db_fields_guard
                 .maybe_manual_compaction
                 .as_ref()
